@@ -110,6 +110,25 @@ def cases(ctx):
                 secs[3].append([[x.upper() if (k % 5 == 0) else x for x in nmk], g.IN, g.NS, 0, None, 60, [[[0, tgt]]]])
         opt = rng.choice([None, [0, 1232, []]])
         msgs.append(("chain", [rng.randrange(65536), 0x8400, secs, opt, None], origin))
+    # a fresh name that straddles offset 0x3FFF: it starts at or below the last offset a pointer can reach, some
+    # of its suffixes start beyond it (and must not enter the compression table), and a later name shares them
+    for d in ([0, 1, 8, 9, 14, 15, 20] if ctx.quick else list(range(0, 24))):
+        def straddle(n):
+            ex = [b"example", b""]
+            secs = [[[[b"q"] + ex, g.IN, g.A, 0, None, 0, []]],
+                    [[[b"f"] + ex, g.IN, 65280, 0, None, 60, [[bytes((7 * j + d) & 0xFF for j in range(n))]]],
+                     [[b"aaaaaaaa", b"fresh", b"zoneb", b""], g.IN, g.A, 0, None, 60, [[bytes([10, 0, 0, d])]]],
+                     [[b"other", b"fresh", b"zoneb", b""], g.IN, g.NS, 0, None, 60, [[[0, [b"ns", b"zoneb", b""]]]]],
+                     [[b"AAAAAAAA", b"Fresh", b"zoneb", b""], g.IN, g.MX, 0, None, 60,
+                      [[struct.pack("!H", 5), [0, [b"mx", b"other", b"fresh", b"zoneb", b""]]]]]],
+                    [], []]
+            return [4000 + d, 0x8400, secs, None, None]
+        n0 = 16000
+        w0 = g.run_render(straddle(n0), None, 65535, 0, 0, 0)
+        if isinstance(w0, Err):
+            continue
+        off = g.walk(bytes(w0))["rrs"][2][7]           # where the owner aaaaaaaa.fresh.zoneb. starts
+        msgs.append(("straddle", straddle(n0 + (0x3FFF - d) - off), None))
     for kind, am, origin in msgs:
         ctx.count("msg:" + kind)
         pad = 0
